@@ -388,9 +388,9 @@ def numerically_equal(a, b, n_points: int = 3):
     decided = 0
     for k in range(2 * n_points + 4):
         if k % 2 == 0:
-            vals = {s: sp.Float(rng.uniform(0.6, 2.9), 30) for s in syms}
+            vals = {s: (sp.Integer(rng.randint(0, 3)) if s.is_integer else sp.Float(rng.uniform(0.6, 2.9), 30)) for s in syms}
         else:  # generic complex point (respecting declared real/integer symbols)
-            vals = {s: (sp.Float(rng.uniform(0.6, 2.9), 30) if (s.is_real or s.is_integer) else
+            vals = {s: (sp.Integer(rng.randint(0, 3)) if s.is_integer else sp.Float(rng.uniform(0.6, 2.9), 30) if s.is_real else
                         sp.Float(rng.uniform(-2, 2), 30) + sp.I * sp.Float(rng.uniform(-2, 2), 30)) for s in syms}
         try:
             va = complex(sp.N(da.xreplace(vals), 25))
